@@ -201,6 +201,173 @@ def check_translated_cli(run: lib.Run, audit: dict, violations: list) -> None:
                    "agree" if good and bad == 0 else (f"{bad} of {len(cases)} differ" if good else (p.stderr or p.stdout)[-500:]))
 
 
+# ---------------------------------------------------------------- A'': the linter's algorithm-dependent analysis, tied by regeneration
+
+LINT_ALGO_CODES = ("POTENTIALLY_UNREACHABLE", "OVERLAPPED_BY_DENY")
+
+
+def lint_rule_pool() -> list:
+    """rule shapes the two cross-rule passes distinguish: effect (deny / permit / absent / null / other case), actions (lists that share /
+    do not share a member, duplicates, non-strings, a bare string, absent), resource (type, `*`, none, ids as str / int, attrs under both keys)"""
+    effects = [{"effect": "permit"}, {"effect": "deny"}, {}, {"effect": None}, {"effect": "Deny"}]
+    actions = [{"actions": ["read"]}, {"actions": ["read", "write"]}, {"actions": ["write", "write", 7]}, {"actions": []}, {"actions": "read"}, {},
+               {"actions": None}]
+    resources = [{"resource": {"type": "doc"}}, {"resource": {"type": "*"}}, {"resource": {}}, {}, {"resource": None},
+                 {"resource": {"type": "doc", "id": "1"}}, {"resource": {"type": "doc", "id": 1}}, {"resource": {"type": "img"}},
+                 {"resource": {"type": ["doc"]}}, {"resource": {"type": "doc", "attrs": {"a": 1}}},
+                 {"resource": {"type": "doc", "attributes": {"a": 1, "b": [1.5]}}}, {"resource": {"type": "doc", "attrs": {"a": True}}},
+                 {"resource": {"type": 1.5}}, {"resource": {"type": "doc", "attrs": "x"}}]
+    return [{**e, **a, **rs} for e in effects for a in actions for rs in resources]
+
+
+def lint_cases(run: lib.Run) -> list:
+    """(fn, document): the witness rule lists of `check_defaults` and rule lists drawn from `lint_rule_pool`, as a stand-alone policy and as a
+    child of a set, under every way of naming / not naming the algorithm (also on the enclosing set); gen.py's policies and policy sets"""
+    r = random.Random(run.seed * 7919 + 23)
+    _p = {"id": "p", "effect": "permit", "actions": ["read"], "resource": {"type": "doc"}}
+    _d = {"id": "d", "effect": "deny", "actions": ["read"], "resource": {"type": "doc"}}
+    _q = {"id": "q", "effect": "permit", "actions": ["read", "write"], "resource": {"type": "doc", "id": "1"}}
+    algos = [{}, {"algorithm": None}, {"algorithm": ""}, {"algorithm": "deny-overrides"}, {"algorithm": "permit-overrides"},
+             {"algorithm": "first-applicable"}, {"algorithm": "First-Applicable"}, {"algorithm": "DENY-OVERRIDES"}, {"algorithm": 0},
+             {"algorithm": 1.5}, {"algorithm": ["deny-overrides"]}, {"algorithm": "deny_overrides"}]
+    pool = lint_rule_pool()
+    # a narrow pool in which rules do overlap: few types, ids and actions
+    narrow = [{**e, "actions": a, "resource": rs} for e in ({"effect": "deny"}, {"effect": "permit"}, {})
+              for a in (["read"], ["write"], ["read", "write"], "read")
+              for rs in ({"type": "doc"}, {"type": "*"}, {"type": "doc", "id": "1"}, {"type": "doc", "id": 1}, {"type": "doc", "attrs": {"a": 1}},
+                         {"type": "doc", "attrs": {"a": 1.0, "b": 2}}, {})]
+    rule_lists = [[_p, _d], [_d, _p], [_d, _q, _p], [_q, _d], [_d, _p, _p, _d, _q], [_p, _p, _q, _p], []]
+    n = (60 if run.tier == "quick" else 600) * run.boost
+    for _ in range(n):
+        src = pool if r.random() < 0.4 else narrow
+        rules = [dict(r.choice(src)) for _ in range(r.choice((2, 2, 3, 3, 4, 6)))]
+        for i, rule in enumerate(rules):
+            if r.random() < 0.8:
+                rule["id"] = r.choice((f"r{i}", "dup", 7, None))
+        rule_lists.append(rules)
+    cases = []
+    for k, rules in enumerate(rule_lists):
+        for a in (algos if k < 7 else r.sample(algos, 4)):
+            cases.append(("analyze_policy", {**a, "rules": rules}))
+        for sa in r.sample(algos, 3):
+            sibling = {"algorithm": "first-applicable", "rules": [_q, _p]}
+            children = [{**r.choice(algos), "rules": rules}]
+            if r.random() < 0.6:
+                children.insert(r.choice((0, 1)), sibling)
+            cases.append(("analyze_policyset", {**sa, "policies": children}))
+    cases += [("analyze_policy", {"rules": None}), ("analyze_policy", {"rules": {"a": 1}}), ("analyze_policy", {"rules": "xy"}), ("analyze_policy", {}),
+              ("analyze_policyset", {}), ("analyze_policyset", {"policies": None}), ("analyze_policyset", {"policies": []})]
+    r2 = random.Random(run.seed * 4099 + 99)
+    for _ in range((40 if run.tier == "quick" else 400) * run.boost):
+        if r2.random() < 0.4:
+            cases.append(("analyze_policyset", strip_algorithm(r2, gen.gen_policyset(r2, False, False))))
+        else:
+            pol = gen.gen_policy(r2, False, False)
+            cases.append(("analyze_policy", strip_algorithm(r2, pol) if r2.random() < 0.6 else pol))
+    return cases
+
+
+def _lint_oracle_roots(doc) -> list:
+    """the values the analysis may apply `str()` to: the algorithm, resource types and ids"""
+    roots = []
+    for pol in ([doc] + list(doc.get("policies") or []) if isinstance(doc, dict) and isinstance(doc.get("policies") or [], list) else [doc]):
+        if not isinstance(pol, dict):
+            continue
+        roots.append(pol.get("algorithm"))
+        rules = pol.get("rules")
+        for rule in (rules if isinstance(rules, list) else []):
+            res = rule.get("resource") if isinstance(rule, dict) else None
+            if isinstance(res, dict):
+                roots += [res.get("type"), res.get("id")]
+    return roots
+
+
+def check_translated_lint(run: lib.Run, audit: dict, violations: list) -> None:
+    """tie by regeneration: `analyze_policy` (its first pass and the helpers `_actions` / `_resource_covers` / `_first_applicable_unreachable` as
+    parameters) and `analyze_policyset` of dsl/lint.py as written now, translated into Lean (plugin src_translation_lint), are proved equal
+    to the model's `Lint.analyzePolicy` / `Lint.analyzePolicyset` with the default constant "deny-overrides" (Run/C17_lint_translated.lean) — the
+    model theorems `c17_lint_default`, `c17_lint_set_children_independent`, `c17_lint_overlap_iff` are about; the REAL functions are
+    compared with the translation and with the model (helpers = the hand-written models) on the algorithm-dependent issues"""
+    import copy
+    import subprocess
+    tr = audit["facts"].get("translated_lint")
+    failed_extraction = tr.get("extraction_failed") if isinstance(tr, dict) else "no facts"
+    ok, detail = lib.run_obligation("C17_lint_translated")
+    run.obligation("C17_lint_translated: Generated.Src.lint_analyze_policy / lint_analyze_policyset = Lint.analyzePolicy / analyzePolicyset under the default "
+                   "constant \"deny-overrides\", for every document, every first pass and every helper function", ok,
+                   "discharged" if ok else (str(failed_extraction) if failed_extraction else detail))
+    if not ok:
+        path = run.write_replay("obligation_lint", {"what": "per-run obligation Rbacx/Run/C17_lint_translated.lean no longer checks: the translated source of "
+                                                    "analyze_policy / analyze_policyset (dsl/lint.py) is not proved equal to the model functions "
+                                                    "Lint.analyzePolicy / Lint.analyzePolicyset that theorems Rbacx.C17.c17_lint_default, "
+                                                    "c17_lint_set_children_independent, c17_lint_overlap_iff are about (the linter comparisons of this run — "
+                                                    "real code against the model, and algorithm-less against explicit deny-overrides — are the search "
+                                                    "for a failing input)", "extraction": failed_extraction, "lean": detail[-1500:]})
+        run.extra.setdefault("translated_obligation_replay", path)
+    helpers = (tr.get("helpers") or {}) if isinstance(tr, dict) else {}
+    okh, detailh = lib.run_obligation("C17_lint_helpers_translated", deps=["C17_lint_translated"])
+    failed_h = "; ".join(f"{n}: {h['failed']}" for n, h in helpers.items() if "failed" in h)
+    run.obligation("C17_lint_helpers_translated: Generated.Src.lint_resource_covers = Lint.resourceCovers, Src.lint_first_applicable_unreachable = "
+                   "Lint.firstApplicableUnreachableG (over every _actions / _resource_covers), and analyze_policy / analyze_policyset with these helpers "
+                   "plugged in = the model with the model helpers", okh, "discharged" if okh else (failed_h or str(failed_extraction or "") or detailh))
+    if not okh:
+        path = run.write_replay("obligation_lint_helpers", {"what": "per-run obligation Rbacx/Run/C17_lint_helpers_translated.lean no longer checks: the translated source of "
+                                                            "_resource_covers / _first_applicable_unreachable (dsl/lint.py) is not proved equal to the model helpers "
+                                                            "Lint.resourceCovers / Lint.firstApplicableUnreachableG (the linter comparisons of this run, real code "
+                                                            "against the model with these helpers, are the search for a failing input)",
+                                                            "extraction": failed_h or failed_extraction, "lean": detailh[-1500:]})
+        run.extra.setdefault("translated_obligation_replay", path)
+    cases = lint_cases(run)
+    reals = []
+    for fn, doc in cases:
+        try:
+            got = getattr(rlint, fn)(copy.deepcopy(doc))
+            reals.append(("ok", [i for i in got if i.get("code") in LINT_ALGO_CODES]))
+        except Exception as e:  # noqa: BLE001
+            reals.append(("raised", type(e).__name__))
+    cmds = [{"fn": fn, "args": [proto.enc(doc), None], "oracle": proto.build_oracle(*_lint_oracle_roots(doc))} for fn, doc in cases]
+    wants = [proto.enc(w) if st == "ok" else None for st, w in reals]
+    mbad = 0
+    for (fn, doc), (st, want), w, m in zip(cases, reals, wants, proto.run_driver([{"cmd": "lint-model", **c} for c in cmds])):
+        run.evaluations += 1
+        if st != "ok":
+            run.count("lint-model: python raised (not judged)")
+            continue
+        run.count("lint-model:" + fn + ":" + ("+".join(sorted({i["code"] for i in want})) or "none"))
+        run.case(["lint", fn, doc], bool(want), None)
+        if m != w:
+            mbad += 1
+            if mbad == 1:
+                run.spec_failures.append({"part": "linter, algorithm-dependent issues", "function": fn, "document": doc, "impl": want,
+                                          "model": proto.dec(m) if isinstance(m, list) else m,
+                                          "spec": "the real linter does not report the POTENTIALLY_UNREACHABLE / OVERLAPPED_BY_DENY issues the model "
+                                                  "Lint.analyzePolicy / analyzePolicyset (default deny-overrides, children analysed independently) says"})
+    if failed_extraction or not (isinstance(tr, dict) and all(n in tr for n in ("analyze_policy", "analyze_policyset"))):
+        return
+    lines = [json.dumps(c) for c in cmds]
+    p = subprocess.run(["lake", "env", "lean", "--run", "Rbacx/Run/SrcEvalLint.lean"], cwd=lib.LEAN, input="\n".join(lines) + "\n",
+                       capture_output=True, text=True, timeout=900)
+    outs = [ln for ln in p.stdout.split("\n") if ln]
+    good = p.returncode == 0 and len(outs) == len(lines)
+    bad = 0
+    if good:
+        for (fn, doc), (st, want), w, ln in zip(cases, reals, wants, outs):
+            run.evaluations += 1
+            if st != "ok":
+                continue
+            got = json.loads(ln)
+            run.count("translated-lint-vs-python")
+            if got.get("value") != w:
+                bad += 1
+                if bad == 1 and not mbad:
+                    run.disagreements.append({"part": "translator", "what": f"translated {fn} (Generated.Src.lint_{fn}) and the Python function differ on the "
+                                              "algorithm-dependent issues", "document": doc, "python": want,
+                                              "translated": proto.dec(got["value"]) if "value" in got else got})
+    run.obligation("translated analyze_policy / analyze_policyset evaluate like the Python functions on the algorithm-dependent issues "
+                   "(translator + Model/PyLint.lean + the helper models of Model/Lint.lean vs CPython)", good and bad == 0,
+                   f"agree on {len(cases)} documents" if good and bad == 0 else (f"{bad} of {len(cases)} differ" if good else (p.stderr or p.stdout)[-500:]))
+
+
 def check_detect(run: lib.Run):
     cases = detect_cases()
     cmds = [{"cmd": "detect-format", "fmt": f, "content_type": c, "filename": n} for f, c, n in cases]
@@ -686,7 +853,9 @@ def check(run: lib.Run, audit: dict) -> int:
     run.rule = ("A: all 7×9×11 (fmt, content-type, filename) combinations; A': command × --policyset × --strict × 11 document shapes × validator outcome per "
                 "validated value (ok / ValidationError / RuntimeError / RecursionError / KeyboardInterrupt / TypeError) × lint outcome, read/parse failures × "
                 "paths, hint combinations × parser outcomes, main × argv × parse_args outcome × command outcome, + seeded random combinations: real "
-                "functions with stub collaborators vs model vs translation; B/C: grammar documents and 14 kinds of single-point mutations, each as JSON and "
+                "functions with stub collaborators vs model vs translation; A'': rule lists from a pool of effect × actions × resource shapes, as a policy and as a "
+                "child of a set, under 12 ways of (not) naming the algorithm, + grammar documents: real linter vs model vs translation on the "
+                "POTENTIALLY_UNREACHABLE / OVERLAPPED_BY_DENY issues; B/C: grammar documents and 14 kinds of single-point mutations, each as JSON and "
                 "YAML through 20 delivery paths (parse_policy_text/bytes with conflicting hints, FilePolicySource .json/.yaml/.yml/.YAML, faked HTTP ×4, "
                 "faked S3 ×2) and the CLI (validate/check × file format × --policyset × --strict); D: the 2-rule witness on 6 paths + linter, random "
                 "algorithm-less (absent/null/empty, at any level) documents on the engine. non-trivial = document with rules that parsed identically / "
@@ -698,6 +867,7 @@ def check(run: lib.Run, audit: dict) -> int:
     violations: list = []
     check_translated_detect(run, audit, violations)
     check_translated_cli(run, audit, violations)
+    check_translated_lint(run, audit, violations)
     check_detect(run)
     check_paths_and_tools(run, audit)
     if not run.spec_failures:
